@@ -72,6 +72,9 @@ class Scheduler:
         self.last_where = None
         self.aborting = False
         self.starve_limit = 400
+        self.stalls = []  # fault plan: [{"func": name, "nth": n, "dur": seconds}] - a thread descheduled for a while
+        self.stall_seen = {}
+        self.stall_total = 0.0
         self.quantum_len = 150
         self.marker_hooks = []
 
@@ -203,6 +206,8 @@ class Scheduler:
         self.last_where = where
         if self.sigint_pending and cur.is_main:
             self._deliver_sigint()
+        if self.stalls and where[0] == "L":
+            self._maybe_stall(cur, where[1])
         cands = [t for t in self.threads if t.state == RUNNABLE and t is not cur]
         if not cands:
             return
@@ -231,6 +236,17 @@ class Scheduler:
                 self._handoff(cur, cands[k - 1])
         if self.sigint_pending and cur.is_main:
             self._deliver_sigint()
+
+    def _maybe_stall(self, cur, func):
+        """Fault: the OS deschedules a thread for a while right here (slow / starved thread)."""
+        n = self.stall_seen[func] = self.stall_seen.get(func, 0) + 1
+        for st in self.stalls:
+            if st["func"] == func and st["nth"] == n:
+                self.count_fault("stall-in:" + func)
+                self.stall_total += st["dur"]
+                deadline = self.now + st["dur"]
+                while self.now < deadline:
+                    self.block(cur, "stall", deadline)
 
     def block(self, cur, on, deadline):
         """Park `cur` until woken or until the virtual deadline. Returns the wake reason."""
